@@ -93,17 +93,18 @@ def check(ctx):
         r0 = pp.local(0)
         ctx.require(any(s[0] == "agg" and s[2] == "Ok" and any(x[0] == "call" and x[3] is tv[0] for x in walk(s)) for s in walk(r0)), "R-FLOW", "fresh-canon:returned",
                     "returns the tracked CID", "populate_unseen_cid_context returns `%s`" % show(r0)[:120])
-    ps = F.fn("canon_utils::populate_seen_cid_context")
-    sp = Prov(ps)
-    rc2 = ps.calls_to("ExecutionCtx::record_canon_cid")
-    ctx.require(len(rc2) == 1 and sp.operand(rc2[0].args[2])[0] == "param" and all(ps.dominates(rc2[0].bb, r) for r in ps.returns), "R-PAIR", "seen-canon:recorded",
-                "populate_seen_cid_context records its CID argument", "populate_seen_cid_context no longer records the canon CID")
+    # a seen (already executed) canon is re-recorded for signing before its epilog runs — directly or through a thin helper
     hce = F.fn("canon_utils::handle_canon_executed")
     hp = Prov(hce)
-    sc = hce.calls_to("canon_utils::populate_seen_cid_context")
-    ok = len(sc) == 1 and lib.mentions_param(hp.operand(sc[0].args[2]), "canon_result_cid") and lib.mentions_field(hp.operand(sc[0].args[1]), "peer_pk")
+    fw = lib.forwarding_calls(F, hce, "ExecutionCtx::record_canon_cid")
+    ok = len(fw) == 1
+    if ok:
+        sc0, amap = fw[0]
+        ok = 1 in amap and 2 in amap and lib.mentions_param(hp.operand(sc0.args[amap[2]]), "canon_result_cid") and lib.mentions_field(hp.operand(sc0.args[amap[1]]), "peer_pk")
+    ctx.require(ok, "R-PAIR", "seen-canon:recorded", "handle_canon_executed records (stored tetraplet's peer_pk, the met canon_result_cid) with record_canon_cid",
+                "handle_canon_executed no longer records the met canon result CID for signing (record_canon_cid with the stored tetraplet's peer and the met CID)")
     ind = [c for c in hce.calls if c.kind == "indirect" or c.path.endswith("Fn<Args>>::call") or "ops::function::Fn" in c.path]
-    ok = ok and ind and all(hce.dominates(sc[0].bb, c.bb) for c in ind)
+    ok = ok and ind and all(hce.dominates(fw[0][0].bb, c.bb) for c in ind)
     ctx.require(ok, "R-PAIR", "seen-canon:before-epilog", "seen canon CID recorded (with the stored tetraplet's peer) before the epilog runs",
                 "handle_canon_executed no longer records the canon CID before running the epilog")
 
@@ -231,6 +232,22 @@ def check(ctx):
     col = dn.calls_to("verification::collect_peers_cids_from_trace")
     ok = ok and col and lib.guarded_by_ok(dn, col[0], so2[0].bb)
     ctx.require(ok, "R-SIBLING", "agree:verifier-sorts", "verifier sorts every peer's CID list after collecting", "DataVerifier::new no longer sorts each peer's CIDs")
+    # the signed list and the verified list undergo the SAME reshaping: exactly one sort each, and no other in-place
+    # operation (dedup, truncate, retain, reverse, ...) on either side — the verifier counts CIDs as a multiset, so a
+    # signer that e.g. de-duplicates signs a different byte string whenever a peer owns one CID twice
+    def list_ops(fn, prov, is_list):
+        ops = []
+        for c_ in fn.calls:
+            if c_.atys and c_.atys[0].startswith("&mut") and ("[" in c_.atys[0] or "Vec<" in c_.atys[0]) and not lib.is_transparent(c_.path) \
+                    and not c_.path.endswith("Iterator>::next") and is_list(prov.operand(c_.args[0])):
+                ops.append(c_.path.split("::")[-1])
+        return sorted(ops)
+    s_ops = list_ops(sc_, sp_, lambda e: lib.mentions_param(e, "cids"))
+    v_ops = list_ops(dn, dp, lambda e: any(x[0] == "call" and x[1].endswith("values_mut") for x in walk(e)))
+    ctx.require(s_ops == ["sort_unstable"] and v_ops == ["sort_unstable"], "R-SIBLING", "agree:list-ops",
+                "signer and verifier reshape the CID list identically: one sort_unstable each, nothing else",
+                "signer reshapes the CID list with %s, verifier with %s: the signed bytes and the verified bytes differ for some CID multisets" % (s_ops, v_ops),
+                sample={"signer_ops": s_ops, "verifier_ops": v_ops})
     same = (so and so2 and so[0].path.split("::")[-1] == so2[0].path.split("::")[-1])
     ctx.require(same, "R-SIBLING", "agree:same-sort", "both sides use the same sort", "signer and verifier use different sorts")
     gs = F.fn("trackers::PeerCidTracker::gen_signature")
